@@ -23,4 +23,5 @@ var Registry = map[string]func(Args) error{
 	"sctp":        SCTP,
 	"sctpanswer":  SCTPAnswer,
 	"marshal":     Marshal,
+	"muxconc":     MuxConc,
 }
